@@ -2036,23 +2036,29 @@ def end_exact(r: R, chk, quals: List[str], rule="END-EXACT"):
                         if isinstance(t_, ast.Name) and t_.id not in closed_names and isinstance(v_, ast.Name) and v_.id in closed_names:
                             closed_names.add(t_.id)
                             ch = True
+        # the map as a comprehension `f(lo, hi, t) for t in nodes`, or as a loop `for t in nodes: out.append(f(lo, hi, t))`
+        maps = []
         for comp in ast.walk(fi.node):
-            if not (isinstance(comp, (ast.GeneratorExp, ast.ListComp)) and len(comp.generators) == 1 and isinstance(comp.generators[0].target, ast.Name)):
-                continue
-            it = comp.generators[0].iter
-            if isinstance(it, ast.Name) and it.id in (closed_names | sample_names) and _affine_form(comp.elt, comp.generators[0].target.id) is not None:
+            if isinstance(comp, (ast.GeneratorExp, ast.ListComp)) and len(comp.generators) == 1 and isinstance(comp.generators[0].target, ast.Name):
+                maps.append((comp, comp.generators[0].iter, comp.generators[0].target.id, comp.elt))
+            elif isinstance(comp, ast.For) and isinstance(comp.target, ast.Name) and isinstance(comp.iter, ast.Name):
+                for c_ in ast.walk(comp):
+                    if isinstance(c_, ast.Call) and isinstance(c_.func, ast.Attribute) and c_.func.attr == "append" and len(c_.args) == 1 and _affine_form(c_.args[0], comp.target.id) is not None:
+                        maps.append((c_, comp.iter, comp.target.id, c_.args[0]))
+        for comp, it, tname, elt in maps:
+            if isinstance(it, ast.Name) and it.id in (closed_names | sample_names) and _affine_form(elt, tname) is not None:
                 examined += 1
             if not (isinstance(it, ast.Name) and it.id in closed_names):
                 continue
-            form = _affine_form(comp.elt, comp.generators[0].target.id)
+            form = _affine_form(elt, tname)
             if form is None:
-                chk.note(f"{rule}: {q}: `{seg(comp.elt, 40)}` is not a map of reference nodes this rule knows: not decided")
+                chk.note(f"{rule}: {q}: `{seg(elt, 40)}` is not a map of reference nodes this rule knows: not decided")
                 continue
             n += 1
             ok = form[0] != "naive"
-            chk.ob(rule, f"{q}: `{seg(comp.elt, 40)}` maps the node 1 onto the upper end exactly", ok, loc=r.loc(ctx, comp),
-                   detail="" if ok else f"{q}: the nodes of `{it.id}` may be a closed family (0 and 1 included) and are mapped by `{seg(comp.elt, 40)}`: in floating point `lo + (hi - lo) * 1` can exceed `hi` by one ulp (0.3 + (0.9 - 0.3) > 0.9), and the evaluation at that node is refused with ValueError (outside the interval) — the whole operation raises on such an interval; `(1 - t) * lo + t * hi` is exact at both ends",
-                   func=q, construct=f"closed nodes mapped by {seg(comp.elt, 40)}")
+            chk.ob(rule, f"{q}: `{seg(elt, 40)}` maps the node 1 onto the upper end exactly", ok, loc=r.loc(ctx, comp),
+                   detail="" if ok else f"{q}: the nodes of `{it.id}` may be a closed family (0 and 1 included) and are mapped by `{seg(elt, 40)}`: in floating point `lo + (hi - lo) * 1` can exceed `hi` by one ulp (0.3 + (0.9 - 0.3) > 0.9), and the evaluation at that node is refused with ValueError (outside the interval) — the whole operation raises on such an interval; `(1 - t) * lo + t * hi` is exact at both ends",
+                   func=q, construct=f"closed nodes mapped by {seg(elt, 40)}")
     chk.extra.setdefault('end_exact_closed', 0)
     chk.extra['end_exact_closed'] += n
     return examined
